@@ -75,6 +75,12 @@ pub fn lib_source(spec: &Value) -> String {
         exports.push(format!("via-{}-{}", s, j));
         body.push(format!("(define (via-{}-{}) (next-{}!))", s, j, j));
     }
+    // an exported constant, and (optionally) a re-export of a dependency's procedure
+    exports.push(format!("(rename k const-{})", s));
+    body.push(format!("(define k {})", 700 + spec["k"].as_i64().unwrap_or(1)));
+    if let Some(j) = reexport_target(spec) {
+        exports.push(format!("(rename next-{}! bump-{}-from-{})", j, j, s));
+    }
     if spec["health"].as_str() == Some("faulting-body") {
         let fault = spec["fault"].as_str().unwrap_or("(car 5)");
         body.push(format!("(define boom {})", fault));
@@ -91,6 +97,16 @@ pub fn lib_source(spec: &Value) -> String {
         exports.join(" "),
         body.join("\n    ")
     )
+}
+
+fn reexport_target(spec: &Value) -> Option<String> {
+    if !spec["reexport"].as_bool().unwrap_or(false) {
+        return None;
+    }
+    let s = spec["short"].as_str().unwrap_or("");
+    spec["imports"]
+        .as_array()
+        .and_then(|a| a.iter().filter_map(|x| x.as_str()).find(|j| *j != "zz" && *j != s).map(|j| j.to_string()))
 }
 
 /// bytes of the library file for its health; None = no regular file is written
@@ -345,6 +361,7 @@ fn gen_lib(rng: &mut Rng, short: &str, imports: Vec<String>, health: &str, allow
         "start": rng.range(0, 50),
         "k": rng.range(1, 9),
         "renames": rng.chance(1, 2),
+        "reexport": rng.chance(1, 2),
         "fault": fault,
         "fault_kind": fault_kind,
         "cut": rng.below(10_000),
@@ -372,6 +389,10 @@ fn external_names(spec: &Value) -> Vec<(String, String)> {
             let j = j.as_str().unwrap();
             v.push((format!("via-{}-{}", s, j), format!("via:{}", j)));
         }
+    }
+    v.push((format!("const-{}", s), "const".to_string()));
+    if let Some(j) = reexport_target(spec) {
+        v.push((format!("bump-{}-from-{}", j, s), format!("via:{}", j)));
     }
     v
 }
@@ -465,7 +486,9 @@ pub fn generate_c13(seed: u64, quick: bool) -> Value {
                 let name = rng.pick(&vis_names).clone();
                 let v = &visible[&name];
                 let k = format!("call-{}", class_head(&v.kind));
-                if v.kind == "use-helper" || v.kind == "use-plus" {
+                if v.kind == "const" {
+                    ("read-exported-constant".to_string(), name.clone())
+                } else if v.kind == "use-helper" || v.kind == "use-plus" {
                     (k, format!("({} {})", name, rng.range(0, 20)))
                 } else {
                     (k, format!("({})", name))
@@ -1041,8 +1064,12 @@ fn execute_c14(case: Value) -> RunResult {
                 // success must have bound the library's exports, from the right directory
                 if observed == "Ok" && !any_event {
                     if let Some(spec) = current.iter().find(|l| l["short"].as_str() == Some(&lib)) {
-                        for (name, _) in external_names(spec) {
-                            let ok = matches!(it.env.get(&name).map(|v| obs_of_value(&v)), Some(Obs::Proc));
+                        for (name, kind) in external_names(spec) {
+                            let ok = match it.env.get(&name).map(|v| obs_of_value(&v)) {
+                                Some(Obs::Proc) => kind != "const",
+                                Some(Obs::Int(_)) => kind == "const",
+                                _ => false,
+                            };
                             if !ok {
                                 res.violation = Some(Violation {
                                     signature: "C14/successful-import-binds-nothing".into(),
